@@ -70,7 +70,7 @@ func e17Universe() []metav1.Object {
 			}
 		}
 	}
-	sels := []map[string]string{nil, {}, {"l": "x"}, {"l": "x", "m": "1"}, {"m": "2"}, {"l": "y"}}
+	sels := []map[string]string{nil, {}, {"l": "x"}, {"l": "x", "m": "1"}, {"m": "2"}, {"l": "y"}, {"canary": ""}, {"tier": ""}, {"l": "x", "canary": ""}}
 	for _, ns := range e17NS[:2] {
 		for ni, nm := range e17Names {
 			for si, s := range sels {
@@ -111,6 +111,11 @@ func e17Selectors() []*metav1.LabelSelector {
 		lsel(nil, req("m", metav1.LabelSelectorOpExists)),
 		lsel(nil, req("m", metav1.LabelSelectorOpDoesNotExist)),
 		lsel(map[string]string{"m": "2"}, req("l", metav1.LabelSelectorOpNotIn, "z", "y")),
+		// several requirements on the same key
+		lsel(nil, req("l", metav1.LabelSelectorOpExists), req("l", metav1.LabelSelectorOpNotIn, "x")),
+		lsel(nil, req("l", metav1.LabelSelectorOpNotIn, "x"), req("l", metav1.LabelSelectorOpExists)),
+		lsel(nil, req("l", metav1.LabelSelectorOpIn, "x", "y"), req("l", metav1.LabelSelectorOpNotIn, "y")),
+		lsel(map[string]string{"l": "x"}, req("l", metav1.LabelSelectorOpIn, "x", "z"), req("m", metav1.LabelSelectorOpDoesNotExist)),
 	}
 }
 
@@ -571,6 +576,7 @@ func e17Atoms() []*kit.Term {
 	at = append(at, tNode(), tNode("node1"), tNode("node2", "node1"), tNode("node1", "node2"), tNode(""))
 	at = append(at, tInvolved("Pod", "n0", "a"), tInvolved("Pod", "n0", "b"), tInvolved("Service", "n0", "a"), tInvolved("Pod", "n1", "a"))
 	at = append(at, tSelMatch(nil), tSelMatch(map[string]string{"l": "x"}), tSelMatch(map[string]string{"l": "x", "m": "1"}), tSelMatch(map[string]string{"m": "1", "l": "x"}))
+	at = append(at, tSelMatch(map[string]string{"canary": ""}), tSelMatch(map[string]string{"tier": ""}), tSelMatch(map[string]string{"app": "web"}), tSelMatch(map[string]string{"l": "x", "canary": ""}), tSelMatch(map[string]string{"l": "x", "tier": ""}))
 	// workload filters as atoms, incl. permutations of the same sources
 	for _, kind := range wlKinds {
 		ws := e17Workloads(kind)
@@ -612,6 +618,30 @@ func e17Terms() []*kit.Term {
 	for _, a := range core {
 		for _, b := range core {
 			terms = append(terms, kit.TAnd(a, b), kit.TOr(a, b))
+		}
+	}
+	// nested composites of the same and of the other kind, in first, middle and
+	// last position, over a small core (a constructor that flattens or reorders
+	// its children must not change the meaning)
+	var small []*kit.Term
+	for i, a := range atoms {
+		if i%11 == 2 || a.Op == "labels" && len(a.Labels) == 1 {
+			small = append(small, a)
+		}
+	}
+	if len(small) > 7 {
+		small = small[:7]
+	}
+	for _, a := range small {
+		for _, b := range small {
+			for _, c := range small {
+				if a == b || b == c || a == c {
+					continue
+				}
+				terms = append(terms,
+					kit.TOr(kit.TOr(a, b), c), kit.TOr(c, kit.TOr(a, b)), kit.TAnd(kit.TAnd(a, b), c), kit.TAnd(c, kit.TAnd(a, b)),
+					kit.TOr(kit.TAnd(a, b), c), kit.TAnd(kit.TOr(a, b), c), kit.TOr(kit.TOr(a, b), kit.TOr(b, c), a), kit.TAnd(kit.TAnd(a, b), kit.TAnd(b, c), a))
+			}
 		}
 	}
 	return terms
@@ -816,6 +846,34 @@ func e17EqualityCase(chunk, chunks int, seed uint64, depth3Pairs int) Case {
 			// workload filters: every permutation of the sources compares equal
 			for _, kind := range wlKinds {
 				ws := e17Workloads(kind)
+				// names ordered opposite to the namespaces, and equal names in different namespaces
+				for _, names := range [][3]string{{"z", "a", "m"}, {"b", "a", "b"}, {"a", "b", "c"}, {"c", "c", "a"}} {
+					nss := [3]string{"n0", "n1", "n1"}
+					var set []wl
+					for i := 0; i < 3; i++ {
+						w := ws[(i*7+3)%len(ws)]
+						w.ns, w.name = nss[i], names[i]
+						set = append(set, w)
+					}
+					base := buildPodsFilter(kind, set)
+					for _, p := range [][]int{{0, 2, 1}, {1, 0, 2}, {1, 2, 0}, {2, 0, 1}, {2, 1, 0}} {
+						ps := []wl{set[p[0]], set[p[1]], set[p[2]]}
+						r.Add("permutation-checks", 1)
+						if !base.Equals(buildPodsFilter(kind, ps)) {
+							r.V("C17", "permutation-not-equal", "%s.PodsFilter of sources %s/%s %s/%s %s/%s in order %v does not compare equal to the original order", kind, nss[0], names[0], nss[1], names[1], nss[2], names[2], p)
+						}
+					}
+					for a := 0; a < 3; a++ {
+						for b := 0; b < 3; b++ {
+							if a != b {
+								r.Add("permutation-checks", 1)
+								if !buildPodsFilter(kind, []wl{set[a], set[b]}).Equals(buildPodsFilter(kind, []wl{set[b], set[a]})) {
+									r.V("C17", "permutation-not-equal", "%s.PodsFilter(%s/%s, %s/%s) does not compare equal to the same two sources in the other order", kind, set[a].ns, set[a].name, set[b].ns, set[b].name)
+								}
+							}
+						}
+					}
+				}
 				for s := 0; s+3 <= len(ws); s += 2 {
 					set := []wl{ws[s], ws[s+1], ws[s+2]}
 					base := buildPodsFilter(kind, set)
